@@ -2,6 +2,7 @@ package main
 
 import (
 	"crypto"
+	stdrsa "crypto/rsa"
 	"fmt"
 	"math/big"
 	"sort"
@@ -27,7 +28,8 @@ type malCase struct {
 	Result string `json:"result"`
 }
 
-// runMalformed: every public-key operation on every (N,E) of the malformed
+// runMalformed: every public-key operation, and every private-key operation on
+// a private key with that public part, on every (N,E) of the malformed
 // alphabet must return (no panic); when N or E is zero, negative or missing it
 // must return an error. N=1, E=1 and even E are outside the statement's list:
 // error or success are both accepted there (recorded), a panic is not.
@@ -110,6 +112,101 @@ func (x *uctx) runMalformed() {
 			return zrsa.VerifyPSS(pub, crypto.SHA256, digest, sigShapes[in].b, &zrsa.PSSOptions{SaltLength: zrsa.PSSSaltLengthEqualsHash})
 		}},
 	}
+	// ---- private-key entry points on a private key whose embedded public part is malformed
+	// (the statement's "operations on malformed public keys": a PrivateKey embeds its PublicKey and
+	// every private-key function reads N and E from it; Go's crypto/rsa returns an error for each of
+	// these keys). D, the primes and (form "precomputed") the CRT values stay those of the base key.
+	mkPriv := func(pub *zrsa.PublicKey, precomputed bool) *zrsa.PrivateKey {
+		p := fx.ZRSA("rsa1024")
+		if precomputed {
+			p.Precompute()
+		}
+		p.N, p.E = pub.N, pub.E
+		return p
+	}
+	goodCT, err := ref.EncP1(fx.NewRand("mal-ct"), msg16)
+	if err != nil {
+		x.c.Broken("cannot make base ciphertext: %v", err)
+	}
+	goodOAEP, err := ref.EncOAEP(crypto.SHA256, fx.NewRand("mal-oaep"), msg16, nil)
+	if err != nil {
+		x.c.Broken("cannot make base OAEP ciphertext: %v", err)
+	}
+	ctShapes := []struct {
+		name string
+		b    []byte
+	}{
+		{"nil", nil}, {"k zero octets", make([]byte, k0)}, {"k octets value 1", one}, {"k octets = prime factor", pmul},
+		{"valid PKCS#1 v1.5 ciphertext of the base key", goodCT}, {"valid OAEP ciphertext of the base key", goodOAEP},
+		{"k+1 zero octets", make([]byte, k0+1)},
+	}
+	var ctNames []string
+	for _, s := range ctShapes {
+		ctNames = append(ctNames, s.name)
+	}
+	for _, pre := range []bool{true, false} {
+		pre := pre
+		fam := func(s string) string {
+			if pre {
+				return s + " (private key, precomputed)"
+			}
+			return s + " (private key, not precomputed)"
+		}
+		one1 := []string{"32-octet digest"}
+		ops = append(ops,
+			opT{fam("SignPKCS1v15(SHA-256)"), "Sign*", one1, func(pub *zrsa.PublicKey, in int) error {
+				_, err := zrsa.SignPKCS1v15(nil, mkPriv(pub, pre), crypto.SHA256, digest)
+				return err
+			}},
+			opT{fam("SignPKCS1v15(unhashed)"), "Sign*", one1, func(pub *zrsa.PublicKey, in int) error {
+				_, err := zrsa.SignPKCS1v15(nil, mkPriv(pub, pre), 0, msg16)
+				return err
+			}},
+			opT{fam("SignPSS(SHA-256,auto)"), "Sign*", one1, func(pub *zrsa.PublicKey, in int) error {
+				_, err := zrsa.SignPSS(fx.NewRand("m"), mkPriv(pub, pre), crypto.SHA256, digest, nil)
+				return err
+			}},
+			opT{fam("SignPSS(SHA-256,salt=hash)"), "Sign*", one1, func(pub *zrsa.PublicKey, in int) error {
+				_, err := zrsa.SignPSS(fx.NewRand("m"), mkPriv(pub, pre), crypto.SHA256, digest, &zrsa.PSSOptions{SaltLength: zrsa.PSSSaltLengthEqualsHash})
+				return err
+			}},
+			opT{fam("PrivateKey.Sign(crypto.SHA256)"), "Sign*", one1, func(pub *zrsa.PublicKey, in int) error {
+				_, err := mkPriv(pub, pre).Sign(fx.NewRand("m"), digest, crypto.SHA256)
+				return err
+			}},
+			opT{fam("PrivateKey.Sign(PSSOptions)"), "Sign*", one1, func(pub *zrsa.PublicKey, in int) error {
+				_, err := mkPriv(pub, pre).Sign(fx.NewRand("m"), digest, &zrsa.PSSOptions{SaltLength: 20, Hash: crypto.SHA256})
+				return err
+			}},
+			opT{fam("DecryptPKCS1v15"), "Decrypt*", ctNames, func(pub *zrsa.PublicKey, in int) error {
+				_, err := zrsa.DecryptPKCS1v15(nil, mkPriv(pub, pre), ctShapes[in].b)
+				return err
+			}},
+			opT{fam("DecryptPKCS1v15SessionKey"), "Decrypt*", ctNames, func(pub *zrsa.PublicKey, in int) error {
+				return zrsa.DecryptPKCS1v15SessionKey(nil, mkPriv(pub, pre), ctShapes[in].b, make([]byte, 16))
+			}},
+			opT{fam("DecryptOAEP(SHA-256)"), "Decrypt*", ctNames, func(pub *zrsa.PublicKey, in int) error {
+				_, err := zrsa.DecryptOAEP(crypto.SHA256.New(), nil, mkPriv(pub, pre), ctShapes[in].b, nil)
+				return err
+			}},
+			opT{fam("PrivateKey.Decrypt(nil)"), "Decrypt*", ctNames, func(pub *zrsa.PublicKey, in int) error {
+				_, err := mkPriv(pub, pre).Decrypt(nil, ctShapes[in].b, nil)
+				return err
+			}},
+			opT{fam("PrivateKey.Decrypt(OAEPOptions)"), "Decrypt*", ctNames, func(pub *zrsa.PublicKey, in int) error {
+				_, err := mkPriv(pub, pre).Decrypt(nil, ctShapes[in].b, &zrsa.OAEPOptions{Hash: crypto.SHA256})
+				return err
+			}},
+			opT{fam("PrivateKey.Decrypt(SessionKeyLen=16)"), "Decrypt*", ctNames, func(pub *zrsa.PublicKey, in int) error {
+				_, err := mkPriv(pub, pre).Decrypt(fx.NewRand("m"), ctShapes[in].b, &zrsa.PKCS1v15DecryptOptions{SessionKeyLen: 16})
+				return err
+			}},
+			opT{fam("PrivateKey.Validate"), "Validate", []string{"-"}, func(pub *zrsa.PublicKey, in int) error {
+				return mkPriv(pub, pre).Validate()
+			}},
+		)
+	}
+
 	found := map[string][]any{}
 	var order []string
 	report := func(sig string, mc malCase) {
@@ -165,7 +262,7 @@ func (x *uctx) runMalformed() {
 						report(fmt.Sprintf("malformed public key (%s): %s returns no error", class, op.family), mc)
 						x.h["malformed:strict:NO-ERROR"]++
 					case err == nil:
-						x.h[fmt.Sprintf("malformed:lenient(%s):%s succeeds on %s", class, op.name, op.inputs[in])]++
+						x.h[fmt.Sprintf("malformed:lenient(%s):%s succeeds", class, op.name)]++
 					default:
 						x.dist++
 						if strict {
@@ -223,49 +320,37 @@ func (x *uctx) runMalformed() {
 		}
 	}
 
-	// Informational only (not demanded by the statement): private-key operations on a
-	// private key whose embedded public part is malformed.
+	// Methods that cannot return an error (Size, Equal, Public): "return an error instead of
+	// panicking" cannot apply; their behaviour is recorded next to crypto/rsa's on the analogous key
+	// (E is an int there: a missing exponent does not exist).
 	for _, nv := range Ns {
 		for _, evv := range Es {
 			if nv.valid && evv.valid {
 				continue
 			}
-			mk := func() *zrsa.PrivateKey {
-				p := fx.ZRSA("rsa1024")
-				p.Precompute()
-				p.N, p.E = nil, nil
-				if nv.v != nil {
-					p.N = new(big.Int).Set(nv.v)
-				}
-				if evv.v != nil {
-					p.E = new(big.Int).Set(evv.v)
-				}
-				return p
+			pub := &zrsa.PublicKey{}
+			spub := &stdrsa.PublicKey{}
+			if nv.v != nil {
+				pub.N = new(big.Int).Set(nv.v)
+				spub.N = new(big.Int).Set(nv.v)
 			}
-			pops := map[string]func(p *zrsa.PrivateKey) error{
-				"SignPKCS1v15": func(p *zrsa.PrivateKey) error { _, e := zrsa.SignPKCS1v15(nil, p, crypto.SHA256, digest); return e },
-				"SignPSS": func(p *zrsa.PrivateKey) error {
-					_, e := zrsa.SignPSS(fx.NewRand("m"), p, crypto.SHA256, digest, nil)
-					return e
-				},
-				"DecryptPKCS1v15": func(p *zrsa.PrivateKey) error { _, e := zrsa.DecryptPKCS1v15(nil, p, goodP1); return e },
-				"DecryptOAEP": func(p *zrsa.PrivateKey) error {
-					_, e := zrsa.DecryptOAEP(crypto.SHA256.New(), nil, p, goodP1, nil)
-					return e
-				},
+			if evv.v != nil {
+				pub.E = new(big.Int).Set(evv.v)
+				spub.E = int(evv.v.Int64())
 			}
-			for name, f := range pops {
-				p := mk()
-				var err error
-				pan, _, _ := ev.Try(func() { err = f(p) })
+			type m struct {
+				name string
+				z, s func()
+			}
+			for _, mm := range []m{
+				{"Size", func() { pub.Size() }, func() { spub.Size() }},
+				{"Equal(self)", func() { pub.Equal(pub) }, func() { spub.Equal(spub) }},
+				{"PrivateKey.Public", func() { mkPriv(pub, true).Public() }, func() {}},
+			} {
 				x.tr++
-				res := "error"
-				if pan {
-					res = "panic"
-				} else if err == nil {
-					res = "ok"
-				}
-				x.h["info(private key with malformed public part):"+name+":"+res]++
+				zp, _, _ := ev.Try(mm.z)
+				sp, _, _ := ev.Try(mm.s)
+				x.h[fmt.Sprintf("info(no error result) %s on a malformed key: zcrypto panics=%v crypto/rsa panics=%v", mm.name, zp, sp)]++
 			}
 		}
 	}
